@@ -153,3 +153,16 @@ TEXTS = {
                     " Also (R01.h): no checked arithmetic on, and no narrowing cast to, 8/16-bit integers on the reachable paths; equal-length invariant of unicode_reduce (R01.c).",
             "note": NOTE},
 }
+
+# clauses added after round 9 (per-file seeded changes): the small helpers the other rules lean on
+_R9 = {
+    "C01": " Also (R01.i): the sub-slices of split halves / joined words equal the derived linear forms.",
+    "C02": " Also: Record::new tokenises its source parameter as it is (R02.g); Normalize::next looks up every prefix of its window (R02.h); field-wise overwrites of a local are modelled, so a clipped hit title is not mistaken for the record's title.",
+    "C03": " Also (R03.k): a hit carries the whole title of its record; the stem is computed from exactly the word's characters.",
+    "C08": " Also (R08.h): Lang::get_pos returns the table entry of the word unfiltered (decision table by abstract interpretation) and WordShape::set_pos assigns it for exactly the word's characters on every path.",
+    "C11": " Also (R11.m): Normalize::next looks up every prefix window[..len], len = window.len()..1, on every path that yields an item (loop and closure forms).",
+    "C12": " Also (R12.i): Text::is_empty tests the words, so a query of separators only is the empty query.",
+    "C14": " Also (R14.j): Word::dist is start(later) - end(earlier) in both orders (region-wise evaluation), stems come from the word's own characters, hits carry whole titles.",
+}
+for _k, _v in _R9.items():
+    TEXTS[_k]["text"] += _v
